@@ -859,6 +859,10 @@ def check_C01(run: core.Run, replay=None):
         gx = tlc_generate("xfer")
         for c in gx["push"][::3] + gx["fetch"][::3]:
             cases.append({"init": c["init"], "ops": [xfer_op(c), xfer_op(c, F=[])], "kind": "xfer", "useed": len(cases) % 3})
+        # a verifying transfer files nothing that does not match its name, whatever the source holds
+        rng = random.Random(run.seed)
+        for c in _sample([c for c in tlc_generate("c11quick")["verify"] if c["verify"]], 300 if quick else 10**9, rng):
+            cases.append({"init": c["init"], "ops": [xfer_op(c, verify=True)], "kind": "verify", "useed": len(cases) % 3})
     traces = execute(cases, run.seed)
     return _finish(run, traces,
                    "random behaviours (tlc -simulate) of add / transfer (with failures, aborts) / gc / status / check "
